@@ -31,7 +31,7 @@ func init() {
 		},
 		OutsideBounds: []string{"literals of more than 10 digits", "hex and character literals as symbolic values", "segment overrides, SHORT/NEAR/FAR keywords on non-branches", "mnemonics not listed (their silent mis-assembly is C07's subject)", "quick tier: the decimal-text-to-number step of the grammar action for literals (thorough tier includes it)"},
 		Quick:    tierSpec{Harnesses: []harnessSpec{{Func: gp + "internal/zzverif.VC01", Discover: 3, Reach: []string{"c01.decode.accepted"}}}},
-		Thorough: tierSpec{Harnesses: []harnessSpec{{Func: gp + "internal/zzverif.VC01", Discover: 3, Params: map[string]int{"alldigits": 1, "allregs": 1}, Reach: []string{"c01.decode.accepted"}}}},
+		Thorough: tierSpec{Harnesses: []harnessSpec{{Func: gp + "internal/zzverif.VC01", Discover: 4, Params: map[string]int{"allregs": 1}, Reach: []string{"c01.decode.accepted"}}}},
 	}
 }
 
@@ -44,8 +44,8 @@ func init() {
 		}},
 		Thorough: tierSpec{Harnesses: []harnessSpec{
 			{Func: gp + "internal/codegen.VC02K", Discover: 3, Reach: []string{"c02k.accepted"}},
-			{Func: gp + "internal/zzverif.VC02Shapes", Discover: 5, Params: map[string]int{"alldigits": 1, "allregs": 1}, Reach: []string{"c02.ea.accepted"}},
-			{Func: gp + "internal/zzverif.VC02Carriers", Discover: 4, Params: map[string]int{"alldigits": 1, "allregs": 1}, Reach: []string{"c02.ea.accepted"}},
+			{Func: gp + "internal/zzverif.VC02Shapes", Discover: 5, Params: map[string]int{"allregs": 1}, Reach: []string{"c02.ea.accepted"}},
+			{Func: gp + "internal/zzverif.VC02Carriers", Discover: 4, Params: map[string]int{"allregs": 1}, Reach: []string{"c02.ea.accepted"}},
 		}},
 		Bounds: []string{
 			"kernel level: calculateModRM on every 32-bit base (8 or none) x index (7 or none) x scale {1,2,4,8} and every 16-bit shape, both modes, reg field 0..7, displacement over all of int64",
@@ -97,7 +97,7 @@ func init() {
 			{Func: gp + "internal/zzverif.VC03Org", Discover: 2, Digits: 5, Reach: []string{"c03o.accepted"}},
 		}},
 		Thorough: tierSpec{Harnesses: []harnessSpec{
-			{Func: gp + "internal/zzverif.VC03", Discover: 4, Params: map[string]int{"alldigits": 1, "allregs": 1}, Reach: []string{"c03.accepted"}},
+			{Func: gp + "internal/zzverif.VC03", Discover: 4, Params: map[string]int{"alldigits": 1}, Reach: []string{"c03.accepted"}},
 			{Func: gp + "internal/zzverif.VC03Org", Discover: 2, Digits: 5, Reach: []string{"c03o.accepted"}},
 		}},
 	}
